@@ -65,9 +65,25 @@ HARNESSES = {
     "atomic4":   dict(pipe="det", mode="product", a=[1, 2, 3, 4], steps=1, seed=None, hooks=False),
     "atomicn3":  dict(pipe="noisy", mode="product", a=[100, 200, 300], steps=1, seed=5, hooks=False, rnghook=False),
     "atomicf3":  dict(pipe="det", mode="product", a=[1, 2, 3], steps=1, seed=None, hooks=False, outputs=True),
+    # the readout times themselves are swept (a key that addresses the observation, not the processor)
+    "rtimes3":   dict(pipe="timed", mode="product", rtimes=[[1.0], [2.0], [4.0]], steps=1, seed=None, hooks=True),
+    "rtimes3n":  dict(pipe="timed", mode="product", rtimes=[[1.0], [2.0], [4.0]], steps=1, seed=5, hooks=True),
     "files2x3":  dict(pipe="det", mode="product", a=[1, 2], b=[10, 20, 30], steps=1, seed=None, hooks=False, outputs=True),
     "files3x2":  dict(pipe="det", mode="product", a=[1, 2, 3], b=[10, 20], steps=1, seed=None, hooks=False, outputs=True),
 }
+
+
+def timed(detector, a=3.0, noise=False):
+    """pixel depends on the readout time of the run (and, with noise, on the process-wide generator)"""
+    if probes.HOOK:
+        probes.HOOK("model.in")
+    shape = detector.geometry.shape
+    detector.pixel.array = np.full(shape, float(a) * float(detector.time))
+    if noise:
+        detector.pixel.array = detector.pixel.array + np.random.normal(0.0, 1.0, size=shape)
+    detector.photon.array = np.full(shape, float(detector.time))
+    if probes.HOOK:
+        probes.HOOK("model.out")
 
 
 def noisy_modelseed(detector, a=0.0, seed=7):
@@ -103,10 +119,15 @@ def build(h, with_dask, tmp):
     elif h["pipe"] == "modelseed":
         groups = {"charge_collection": [("props.c07_parallel.noisy_modelseed", "nz", {"a": 0.0, "seed": 7})]}
         ka, kb = "pipeline.charge_collection.nz.arguments.a", "pipeline.charge_collection.nz.arguments.seed"
+    elif h["pipe"] == "timed":
+        groups = {"charge_collection": [("props.c07_parallel.timed", "tm", {"a": 3.0 + s, "noise": h["seed"] is not None})]}
+        ka = kb = None
     pipe = mk.pipeline(groups)
     params = []
     kw = {}
-    if h["mode"] == "custom":
+    if "rtimes" in h:
+        params = [ParameterValues(key="observation.readout.times", values=[list(t) for t in h["rtimes"]])]
+    elif h["mode"] == "custom":
         fn = os.path.join(tmp, "custom.txt")
         with open(fn, "w") as f:
             for row in h["rows"]:
@@ -141,6 +162,31 @@ def _bucket_arrays(tree):
 def canon_result(arrs):
     """label-indexed canonical form: {var: (dims, coords of parameter dims, bytes)}"""
     out = {}
+    if any("readout_time_id" in da.dims for da in arrs.values()) or \
+            any(da.dims and "time" in da.dims and da.coords["time"].dtype == object for da in arrs.values()):
+        # sweep of the readout times: the two executions lay the result out differently (the sequential one keeps
+        # a run index and a sparse `time` axis, the parallel one relabels `time` with the swept tuples); compared
+        # per run: the frames that run produced
+        for name, da in sorted(arrs.items()):
+            runs = []
+            if "y" not in da.dims or "x" not in da.dims:
+                continue                        # a bucket no model initialised
+            if "readout_time_id" in da.dims:
+                for i in range(da.sizes["readout_time_id"]):
+                    sub = da.isel(readout_time_id=i)
+                    for d in list(sub.dims):
+                        if d not in ("time", "y", "x"):
+                            sub = sub.isel({d: 0})
+                    vals = np.asarray(sub.transpose("time", "y", "x").values, dtype="float64")
+                    runs.append(vals[[t for t in range(vals.shape[0]) if not np.isnan(vals[t]).all()]])
+            elif "time" in da.dims:
+                vals = np.asarray(da.transpose("time", "y", "x").values, dtype="float64")
+                runs = [vals[i:i + 1] for i in range(vals.shape[0])]
+            else:
+                continue
+            out[name] = [["run", "time", "x", "y"], {"run": len(runs)}, "float64",
+                         hashlib.sha1(b"|".join(np.ascontiguousarray(r).tobytes() for r in runs)).hexdigest()]
+        return out
     for name, da in sorted(arrs.items()):
         dims = sorted(str(d) for d in da.dims)
         da2 = da.transpose(*dims)
@@ -290,11 +336,12 @@ def plan(tier):
         return [("det3", 2, 1), ("det2x2", 2, 1), ("state3", 2, 1), ("seq", 2, 1), ("custom3", 2, 1),
                 ("noisy3", 2, 1), ("noisy2", 2, 2), ("mseed3", 2, 1), ("files3", 2, 1),
                 ("atomic4", 4, 0), ("atomicn3", 3, 0), ("atomicf3", 3, 0), ("det3", 1, 0), ("det3", 3, 1),
-                ("files2x3", 2, 0), ("files3x2", 3, 0)]
+                ("files2x3", 2, 0), ("files3x2", 3, 0), ("rtimes3", 2, 1), ("rtimes3n", 3, 1)]
     return [("det3", 2, 2), ("det2x2", 2, 2), ("det3s2", 2, 2), ("state3", 2, 2), ("seq", 2, 2), ("custom3", 2, 2),
             ("noisy3", 2, 2), ("noisy2", 2, 3), ("mseed3", 2, 2), ("files3", 2, 2), ("det3", 3, 2), ("noisy3", 3, 2),
             ("atomic4", 4, 0), ("atomic4", 2, 0), ("atomicn3", 3, 0), ("atomicf3", 3, 0), ("det3", 1, 0),
-            ("noisy3", 1, 0), ("files2x3", 2, 0), ("files3x2", 3, 0), ("files2x3", 6, 0)]
+            ("noisy3", 1, 0), ("files2x3", 2, 0), ("files3x2", 3, 0), ("files2x3", 6, 0), ("rtimes3", 2, 2),
+            ("rtimes3n", 3, 2)]
 
 
 def shards(tier, seed):
@@ -303,7 +350,7 @@ def shards(tier, seed):
         nsplit = 1 if bound == 0 else (6 if tier == "quick" else 14)
         for i in range(nsplit):
             out.append({"part": "sched", "h": hname, "k": k, "bound": bound, "i": i, "of": nsplit, "seed": seed})
-    for hname in ("det3", "state3", "seq", "custom3", "noisy3", "mseed3"):
+    for hname in ("det3", "state3", "seq", "custom3", "noisy3", "mseed3", "rtimes3n"):
         out.append({"part": "free", "h": hname, "seed": seed, "tier": tier})
     out.append({"part": "calib", "seed": seed, "tier": tier})
     for name in BFE:
